@@ -78,6 +78,8 @@ type Upstream struct {
 
 	closedNotified sync.Once // the closed event is delivered once, whichever close path gets there first
 
+	writeMu sync.RWMutex // held (shared) from the state check of a write to its hand-over; Close changes the state under it
+
 	sent   sentStorage
 	logger log.Logger
 
@@ -140,7 +142,11 @@ func (u *Upstream) stateWithoutLock() *UpstreamState {
 
 // Closeは、アップストリームを閉じます。
 func (u *Upstream) Close(ctx context.Context, opts ...UpstreamCloseOption) error {
+	// writers that have passed their state check hand their points over before the state changes,
+	// later ones see the new state: no write is accepted after Close has flushed
+	u.writeMu.Lock()
 	beforeStatus := u.state.Swap(streamStatusDraining)
+	u.writeMu.Unlock()
 	if beforeStatus == streamStatusDraining {
 		return errors.Errorf("already draining: %w", errors.ErrStreamClosed)
 	}
@@ -279,6 +285,8 @@ func (u *Upstream) isClosed() bool {
 
 // WriteDataPointsは、データポイントを内部バッファに書き込みます。
 func (u *Upstream) WriteDataPoints(ctx context.Context, dataID *message.DataID, dps ...*message.DataPoint) error {
+	u.writeMu.RLock()
+	defer u.writeMu.RUnlock()
 	if u.isClosed() {
 		return errors.ErrStreamClosed
 	}
